@@ -97,7 +97,7 @@ Definition post_acquire (e : exec) (me m : nat) : exec * bool :=
       else
         let e := upd_object e m (fun _ => OMutex (mkMutex (mx_seqcst s) (Some me) (mx_last s) (mx_sync s))) in
         let e := set_caus e me (sync_load (caus_of e me) (mx_sync s) Acquire) in
-        (map_others e me (pending_on m) set_blocked, true)
+        (map_others e me (fun t => pending_on m t && negb (pending_on_act m AOpaqueTry t)) set_blocked, true)
   end.
 
 (* Mutex::release_lock *)
@@ -149,7 +149,8 @@ Definition post_acquire_write (e : exec) (me r : nat) : exec * bool :=
       | None =>
           let e := upd_object e r (fun _ => ORwLock (mkRw (Some (RLWrite me)) (rw_last s) (rw_sync s))) in
           let e := set_caus e me (sync_load (caus_of e me) (rw_sync s) Acquire) in
-          (map_others e me (pending_on r) set_blocked, true)
+          (map_others e me (fun t => pending_on r t && negb (pending_on_act r ATryRead t)
+                                             && negb (pending_on_act r ATryWrite t)) set_blocked, true)
       end
   end.
 
@@ -437,7 +438,7 @@ Definition exec_micro (e : exec) (me : nat) (m : micro) : mres :=
       | Relaxed => MFail (causality_inc e me) PanicRelaxedFence
       | _ =>
           let e := causality_inc e me in
-          let e := if ord_acq o then set_caus e me (fence_acq (e_objects e) (caus_of e me)) else e in
+          let e := if ord_acq o then set_caus e me (fence_acq (e_objects e) me (caus_of e me)) else e in
           let e := if ord_rel o then upd_thread e me (fun t => th_set_rel t (t_caus t)) else e in
           let e := if is_seq_cst o then
                      let c := vv_join (caus_of e me) (e_seqcst e) in
